@@ -581,7 +581,7 @@ def main(tier, seed, replay=None):
                 if viol:
                     rep.violation(viol[0], viol[1], case, size=viol[2])
         # 2b. metadata sessions (WriterMetaSpec): last write wins, key by key
-        dm = 5 if q else 7
+        dm = 5 if q else 6
         mres = tlc.run("WriterMetaSpec", "INIT MInit\nNEXT MNext\n"
                        "CONSTRAINT HCon\nPROPERTY LastWriteWins\n"
                        "PROPERTY NeverLost\nCONSTANTS\n Keys <- MCKeys\n"
@@ -592,10 +592,12 @@ def main(tier, seed, replay=None):
         ev.add_tlc("WriterMetaSpec sessions depth %d" % dm, mres)
         if not mres.ok:
             raise tlc.TLCError("WriterMetaSpec violates %s" % mres.violated)
-        mh = mres.tagged("H")
-        cap = 2500 if q else 30000
-        if len(mh) > cap:
-            mh = par.sample(mh, len(mh) // cap + 1, seed)
+        # (streamed: depth 6 prints about 800,000 histories)
+        import zlib
+        kq = 25 if q else 30
+        mh = [h_ for h_ in mres.iter_tagged("H", consume=True)
+              if zlib.crc32(json.dumps(h_, sort_keys=True).encode()) % kq
+              == seed % kq]
         ev.extra["metadata_sessions"] = len(mh)
         for case, viol in par.pmap(_meta_replay, [(h, root) for h in mh],
                                    chunk=40):
